@@ -26,7 +26,8 @@ import re
 
 PURE_CALLS = {'len', 'min', 'max', 'abs', 'int', 'float', 'bool', 'tuple', 'divmod', 'isinstance', 'slice',
               'range', 'round', 'sum', 'all', 'any', 'sorted', 'list', 'set', 'frozenset', 'str', 'repr',
-              'np.dtype', 'numpy.dtype', 'struct.calcsize', 'type', 'getattr', 'hasattr', 'enumerate', 'zip', 'reversed'}
+              'np.dtype', 'numpy.dtype', 'struct.calcsize', 'type', 'getattr', 'hasattr', 'enumerate', 'zip', 'reversed',
+              'pad'}     # utils.pad: rounds up to a multiple (pure arithmetic)
 MAX_HELPER_STMTS = 30
 
 
@@ -146,8 +147,98 @@ class _Subst(ast.NodeTransformer):
         return n
 
 
+def _lit_elems(e, lookup, depth=0):
+    """element expressions of an iterable known at analysis time: a tuple / list display, a name bound once to one,
+    zip(..) / enumerate(..) of such, range(<small constant>).  None when unknown."""
+    if depth > 3:
+        return None
+    if isinstance(e, (ast.Tuple, ast.List)):
+        if any(isinstance(x, ast.Starred) for x in e.elts):
+            return None
+        return list(e.elts)
+    if isinstance(e, ast.Name) and lookup is not None:
+        d = lookup(e.id)
+        if isinstance(d, (ast.Tuple, ast.List)):
+            # elements read through the name: T[i]
+            return [ast.copy_location(ast.Subscript(value=ast.Name(id=e.id, ctx=ast.Load()), slice=ast.Constant(value=i), ctx=ast.Load()), e)
+                    for i in range(len(d.elts))]
+        return None
+    if isinstance(e, ast.Call) and isinstance(e.func, ast.Name) and not e.keywords:
+        if e.func.id == 'zip' and e.args:
+            cols = [_lit_elems(a, lookup, depth + 1) for a in e.args]
+            if any(c is None for c in cols) or len({len(c) for c in cols}) != 1:
+                return None
+            return [ast.copy_location(ast.Tuple(elts=list(row), ctx=ast.Load()), e) for row in zip(*cols)]
+        if e.func.id == 'enumerate' and len(e.args) == 1:
+            c = _lit_elems(e.args[0], lookup, depth + 1)
+            if c is None:
+                return None
+            return [ast.copy_location(ast.Tuple(elts=[ast.Constant(value=i), x], ctx=ast.Load()), e) for i, x in enumerate(c)]
+        if e.func.id == 'range' and len(e.args) == 1 and isinstance(e.args[0], ast.Constant) and \
+                isinstance(e.args[0].value, int) and 0 <= e.args[0].value <= 8:
+            return [ast.copy_location(ast.Constant(value=i), e) for i in range(e.args[0].value)]
+    return None
+
+
 class _Fold(ast.NodeTransformer):
-    """(a, b, c)[1] -> b ; len((a, b, c)) -> 3"""
+    """(a, b, c)[1] -> b ;  tuple(f(x) for x in <known elements>) -> (f(x0), f(x1), ..)"""
+    def __init__(self, lookup=None, pure=None):
+        self.lookup, self.pure = lookup, pure
+
+    def _expand(self, comp):
+        if not (isinstance(comp, (ast.GeneratorExp, ast.ListComp)) and len(comp.generators) == 1):
+            return None
+        g = comp.generators[0]
+        if g.ifs or g.is_async:
+            return None
+        if isinstance(g.target, ast.Name):
+            names = [g.target.id]
+        elif isinstance(g.target, ast.Tuple) and all(isinstance(x, ast.Name) for x in g.target.elts):
+            names = [x.id for x in g.target.elts]
+        else:
+            return None
+        elems = _lit_elems(g.iter, self.lookup)
+        if elems is None or not (1 <= len(elems) <= 8) or self.pure is None or not self.pure(comp.elt):
+            return None
+        out = []
+        for el in elems:
+            if isinstance(g.target, ast.Name):
+                vals = [el]
+            elif isinstance(el, ast.Tuple) and len(el.elts) == len(names):
+                vals = el.elts
+            else:
+                return None
+            if not all(self.pure(v) for v in vals):
+                return None
+            out.append(_Subst(dict(zip(names, vals))).visit(copy.deepcopy(comp.elt)))
+        return out
+
+    def visit_Call(self, n):
+        self.generic_visit(n)
+        if isinstance(n.func, ast.Name) and n.func.id in ('tuple', 'list') and len(n.args) == 1 and not n.keywords:
+            out = self._expand(n.args[0])
+            if out is not None:
+                new = ast.Tuple(elts=out, ctx=ast.Load()) if n.func.id == 'tuple' else ast.List(elts=out, ctx=ast.Load())
+                return _set_loc(new, n)
+        return n
+
+    def visit_BinOp(self, n):
+        self.generic_visit(n)
+        a, b = n.left, n.right
+        if isinstance(a, ast.Constant) and isinstance(b, ast.Constant) and type(a.value) is int and type(b.value) is int:
+            v = None
+            if isinstance(n.op, ast.Add):
+                v = a.value + b.value
+            elif isinstance(n.op, ast.Sub):
+                v = a.value - b.value
+            elif isinstance(n.op, ast.Mult):
+                v = a.value * b.value
+            elif isinstance(n.op, ast.FloorDiv) and b.value != 0:
+                v = a.value // b.value
+            if v is not None and abs(v) < 2 ** 40:
+                return ast.copy_location(ast.Constant(value=v), n)
+        return n
+
     def visit_Subscript(self, n):
         self.generic_visit(n)
         if isinstance(n.ctx, ast.Load) and isinstance(n.value, ast.Tuple) and isinstance(n.slice, ast.Constant) and \
@@ -216,6 +307,18 @@ def _assigned_names(fn):
         elif isinstance(n, (ast.Global, ast.Nonlocal)):
             for nm in n.names:
                 out.setdefault(nm, []).extend([n, n])
+    return out
+
+
+def _comprehension_locals(fn):
+    """ids of Name nodes that refer to a variable bound by an enclosing comprehension (its own scope)."""
+    out = set()
+    for c in _all_nodes(fn):
+        if isinstance(c, (ast.ListComp, ast.GeneratorExp, ast.SetComp, ast.DictComp)):
+            bound = {x.id for g in c.generators for x in ast.walk(g.target) if isinstance(x, ast.Name)}
+            for x in ast.walk(c):
+                if isinstance(x, ast.Name) and x.id in bound:
+                    out.add(id(x))
     return out
 
 
@@ -313,12 +416,28 @@ class ModuleNormaliser:
                     self.split_parallel(fn)
                     self.copy_prop(fn, cls)
                 self.drop_dead_nested(fn)
-                fn.body = [_Fold().visit(st) for st in fn.body]
+                lookup = self.single_def_lookup(fn)
+                fn.body = [_Fold(lookup, self.pure).visit(st) for st in fn.body]
                 if ast.dump(fn) == before:
                     break
         finally:
             self.in_progress.discard(id(fn))
             self.done.add(id(fn))
+
+    def single_def_lookup(self, fn):
+        sites = _assigned_names(fn)
+        params = set(_params(fn))
+
+        def lookup(name):
+            ss = sites.get(name, [])
+            if name in params or len(ss) != 1:
+                return None
+            d = ss[0]
+            if isinstance(d, ast.Assign) and len(d.targets) == 1 and isinstance(d.targets[0], ast.Name) and \
+                    isinstance(d.value, (ast.Tuple, ast.List)) and all(self.pure(x) for x in d.value.elts):
+                return d.value
+            return None
+        return lookup
 
     # ------------------------------------------------------------------ 6
     def fold_consts(self, fn):
@@ -378,9 +497,9 @@ class ModuleNormaliser:
                 body[i:i + 1] = [new]
                 continue
             # 4. unroll a loop over a literal tuple
-            if not skip('unroll') and isinstance(s, ast.For) and isinstance(s.iter, (ast.Tuple, ast.List)) and not s.orelse and \
-                    1 <= len(s.iter.elts) <= 8 and not any(isinstance(x, (ast.Break, ast.Continue)) for b in s.body for x in ast.walk(b)) and \
-                    not any(isinstance(e, ast.Starred) for e in s.iter.elts):
+            if not skip('unroll') and isinstance(s, ast.For) and not s.orelse and \
+                    not any(isinstance(x, (ast.Break, ast.Continue)) for b in s.body for x in ast.walk(b)) and \
+                    1 <= len(_lit_elems(s.iter, self.single_def_lookup(fn)) or []) <= 8:
                 un = self.unroll(s, fn)
                 if un is not None:
                     self.log.append(('unroll', fn.name, s.lineno))
@@ -405,9 +524,12 @@ class ModuleNormaliser:
             # not re-bound inside the body
             if any(id(a) in inside for a in sites.get(nm, []) if a is not s):
                 return None
+        sites = {k: [a for a in v if not isinstance(a, ast.comprehension)] for k, v in sites.items()}
         index = _Index(fn)
+        comp_local = _comprehension_locals(fn)
         for x in _all_nodes(fn):
-            if isinstance(x, ast.Name) and x.id in names and isinstance(x.ctx, ast.Load) and id(x) not in inside:
+            if isinstance(x, ast.Name) and x.id in names and isinstance(x.ctx, ast.Load) and id(x) not in inside \
+                    and id(x) not in comp_local:
                 if len(sites.get(x.id, [])) == 1:
                     return None          # the only binding is this loop: the load reads its last value
                 st = index.stmt_of(x)
@@ -415,7 +537,7 @@ class ModuleNormaliser:
                 if st is None or not (index.precedes(st, s) or index.exclusive(st, s)) or index.common_loop(st, s):
                     return None
         out = []
-        for el in s.iter.elts:
+        for el in _lit_elems(s.iter, self.single_def_lookup(fn)):
             if isinstance(tgt, ast.Name):
                 vals = [el]
             else:
@@ -632,8 +754,10 @@ class ModuleNormaliser:
         if not body or len([x for s in body for x in ast.walk(s) if isinstance(x, ast.stmt)]) > MAX_HELPER_STMTS:
             return None
         for x in ast.walk(h):
-            if isinstance(x, (ast.Yield, ast.YieldFrom, ast.Await, ast.Global, ast.Nonlocal, ast.Try, ast.With, ast.While,
-                              ast.Lambda, ast.AsyncFunctionDef, ast.ClassDef)):
+            if isinstance(x, (ast.Yield, ast.YieldFrom, ast.Await, ast.Global, ast.Nonlocal, ast.Try, ast.While,
+                              ast.Lambda, ast.AsyncFunctionDef, ast.ClassDef, ast.AsyncWith)):
+                return None
+            if isinstance(x, ast.With) and any(isinstance(y, ast.Return) for y in ast.walk(x)):
                 return None
             if isinstance(x, ast.FunctionDef) and x is not h:
                 return None
@@ -722,7 +846,16 @@ class ModuleNormaliser:
                     if h is fn or id(h) in self.in_progress:
                         continue
                     self.norm_func(h, hc)
-                    if self.inlinable(h, kind) != 'expr':
+                    how = self.inlinable(h, kind)
+                    if how == 'stmt' and isinstance(s, (ast.Expr, ast.Assign, ast.Return, ast.AugAssign)) and \
+                            self.straight_line(h) and self.unconditional(s, c):
+                        new = self.hoist(s, c, h, skip_self, fn)
+                        if new is not None:
+                            blk[i:i + 1] = new
+                            self.log.append(('inline-stmt', fn.name, h.name))
+                            done = True
+                            break
+                    if how != 'expr':
                         continue
                     e = self.inline_expr(c, h, skip_self)
                     if e is None:
@@ -734,6 +867,57 @@ class ModuleNormaliser:
                 if done:
                     changed = True
                     break
+
+    def straight_line(self, h):
+        body = _docless(h.body)
+        return len(body) >= 2 and all(isinstance(x, ast.Assign) for x in body[:-1]) and isinstance(body[-1], ast.Return) \
+            and body[-1].value is not None
+
+    def unconditional(self, s, call):
+        """the call is evaluated exactly once whenever statement s runs, and before any other call of s"""
+        # no short-circuit / conditional / comprehension / lambda between the statement and the call
+        path = _path_to(s, call)
+        if path is None:
+            return False
+        for n in path:
+            if isinstance(n, (ast.BoolOp, ast.IfExp, ast.Lambda, ast.ListComp, ast.GeneratorExp, ast.SetComp, ast.DictComp,
+                              ast.comprehension)):
+                return False
+        # other impure calls in s evaluated before it: only allow when the call's statement has no other package call
+        # that precedes it textually (arguments are evaluated left to right)
+        for x in _stmt_exprs(s):
+            if isinstance(x, ast.Call) and x is not call and not self.pure(x) and \
+                    (x.lineno, x.col_offset) < (call.lineno, call.col_offset) and not any(y is call for y in ast.walk(x)):
+                return False
+        return True
+
+    def hoist(self, s, call, h, skip_self, fn):
+        b = self.bind(call, h, skip_self)
+        if b is None:
+            return None
+        body = copy.deepcopy(_docless(h.body))
+        self.counter += 1
+        tag = '_%s_%d_' % (h.name.strip('_'), self.counter)
+        hs = _assigned_names(h)
+        ren = {nm: tag + nm for nm in hs}
+        pre, sub = [], {}
+        for p_, a in b.items():
+            if p_ in hs or not self.pure(a):
+                nm = tag + p_
+                ren[p_] = nm
+                pre.append(_set_loc(ast.Assign(targets=[ast.Name(id=nm, ctx=ast.Store())], value=copy.deepcopy(a)), call))
+            else:
+                sub[p_] = a
+        if skip_self and isinstance(call.func, ast.Attribute):
+            sub[h.args.args[0].arg] = call.func.value
+        body = [_Rename(ren).visit(st) for st in body]
+        body = [_Subst(sub).visit(st) for st in body]
+        ret = body[-1].value
+        _replace_node(s, call, _set_loc(ret, call))
+        out = pre + body[:-1]
+        for st in out:
+            _set_loc(st, s)
+        return out + [s]
 
     def bind(self, call, h, skip_self):
         ps = [a.arg for a in h.args.args]
@@ -1025,6 +1209,19 @@ def _stmt_exprs(s):
         if isinstance(n, ast.Lambda):
             continue
         todo.extend(ast.iter_child_nodes(n))
+
+
+def _path_to(root, target):
+    """nodes strictly between root and target (ancestors of target inside root), or None"""
+    def rec(n, acc):
+        for c in ast.iter_child_nodes(n):
+            if c is target:
+                return acc
+            r = rec(c, acc + [c])
+            if r is not None:
+                return r
+        return None
+    return rec(root, [])
 
 
 def _replace_node(root, old, new):
